@@ -11,7 +11,7 @@
 A failing case is attributed to a listed finding by *experiment*, not by looking at the pattern: PCRE2 itself (trusted
 base, reached through the harness' raw ops with libyang's own options) is run on the text the model produces with a set of
 repairs switched on; the smallest set that restores the spec verdicts names the findings.  Findings for which the model
-has no repair switch (class subtraction, \\i \\c, \\w \\s, \\P{IsX}, Specials) are recognised by the feature of the parsed
+has no repair switch (class subtraction, \\i \\c, \\w \\s, \\P{IsX}) are recognised by the feature of the parsed
 pattern.  In both cases the oracle is first cross-checked: PCRE2 on the semantics-first translation `toPcre` must agree
 with the spec matcher, otherwise the case is reported as unclassified.
 """
@@ -35,8 +35,8 @@ TRUSTED = ["PCRE2", "harness/wb_re.c (pcre2_compile recording wrapper, route dri
 COMP = "xsdre"
 HARNESS = "wb_re"
 WORKERS = max(2, min(12, (os.cpu_count() or 4) - 2))
-FLAG_FINDING = {"f1": "F1", "f25": "F25", "nl": "F10", "f186": "F186"}
-TEXT_FLAGS = ["f1", "f25", "f186"]
+FLAG_FINDING = {"f1": "F1", "f25": "F25", "nl": "F10", "f186": "F186", "f190": "F190", "f187": "F187"}
+TEXT_FLAGS = ["f1", "f25", "f186", "f190", "f187"]
 
 # ------------------------------------------------------------------------------------------ classify
 
@@ -375,7 +375,7 @@ def attribute(cx, st, failing, stats):
         fs = set(feats[1].split(",")) if feats[0] == "ok" and feats[1] != "-" else set()
         cand = []
         if "pblock" in fs:
-            cand += [f for f in ("f1", "f186") if f in missing_text]
+            cand += [f for f in ("f1", "f186", "f190", "f187") if f in missing_text]
         if b"\\^" in c.pat or b"\\$" in c.pat:
             cand += [f for f in ("f25",) if f in missing_text]
         nlc = [0] if (st.nl or "dot" not in fs) else [0, 1]
@@ -423,8 +423,6 @@ def attribute(cx, st, failing, stats):
             fid = "F183"
         elif "Pblock" in fs or any(("\\p{Is%s}" % b).encode() in c.pat for b in NONTABLE_BLOCKS):
             fid = "F185"
-        elif b"\\p{IsSpecials}" in c.pat:
-            fid = "F187"        # (while F1 is present the row is not even used; the experiment cannot separate the two)
         if fid:
             stats["attributed-" + fid] += 1
             cx.count((c.tag, c.pat, fid), True, "xsdre:%s:known-%s" % (c.tag, fid), c.n())
@@ -437,6 +435,13 @@ def attribute(cx, st, failing, stats):
             if x[0] == "ok" and x[1] == m:
                 found = (sub, nl)
                 break
+        if found is None and "f187" in missing_text and b"\\p{IsSpecials}" in c.pat:
+            # the switch f187 repairs the length that is copied, not the text of the row (the literal '|' of the unrepaired row
+            # is part of the same finding and comes with the table of the source): no experiment can restore the verdicts
+            stats["attributed-F187"] += 1
+            cx.count((c.tag, c.pat, "F187"), True, "xsdre:%s:known-F187" % c.tag, c.n())
+            cx.fail(COMP, what + " [F187]", dict(case, attributed="F187"))
+            continue
         if found is None or (not found[0] and not found[1]):
             stats["unattributed"] += 1
             cx.count((c.tag, c.pat, "unattributed"), True, "xsdre:%s:unattributed" % c.tag, c.n())
@@ -464,6 +469,16 @@ def table_names():
         return []
 
 
+def generated_len_from_row():
+    """the copy-length rule the translator read from the source (Generated/UBlocks.lenFromRow)"""
+    p = os.path.join(paths.LEAN, "LyModel", "Generated", "UBlocks.lean")
+    try:
+        m = re.search(r"^def lenFromRow : Bool := (true|false)", open(p).read(), re.M)
+    except OSError:
+        m = None
+    return None if not m else m.group(1) == "true"
+
+
 def probe(cx):
     st = State()
     st.blocks = table_names()
@@ -479,6 +494,19 @@ def probe(cx):
         st.flags.append("f1")
         if txt("p3") == b"[\\x{1F00}-\\x{1FFF}]":
             st.flags.append("f186")
+        # (only with F1 repaired: while it is present the first of these patterns reads outside the table)
+        r2 = cx.run_impl(HARNESS, ["p4 %s rewrite - %s" % (COMP, hexs(b"\\\\[a]\\p{IsGreek}")), "p5 %s rewrite - %s" % (COMP, hexs(b"\\p{IsSpecials}"))],
+                         component=COMP)
+        ri.update(r2)
+        if txt("p4") == b"\\\\[a][\\x{0370}-\\x{03FF}]":
+            st.flags.append("f190")
+        t5 = txt("p5")
+        if t5 is not None and len(t5) > 19 and t5.endswith(b"]"):
+            st.flags.append("f187")         # the whole row is copied, whatever its length
+        lfr = generated_len_from_row()
+        if lfr is not None and lfr != ("f187" in st.flags):
+            cx.fail(COMP, "translator and harness disagree on the length the block substitution copies from a row",
+                    {"Generated.UBlocks.lenFromRow": lfr, "rewrite_of_IsSpecials": (t5 or b"?").decode("utf-8", "replace")})
     info = ri.get("p0", ["err"])
     st.nl = 1 if (info[0] == "ok" and info[2] != "2") else 0
     cx.notes.append("tree state probed through the harness: repairs present = %s, newline convention %s, PCRE2 %s"
@@ -514,6 +542,7 @@ def rewrite_inputs(cx, st):
     for k in list(range(0, 8)) + [40, 81, 82, 83, 84, 85, 100]:
         out.append(b"[" * k + b"\\p{IsGreek}" + b"]" * k)
     out += [b"\\\\[a]\\p{IsGreek}", b"[\\\\]\\p{IsGreek}", b"\\\\[a]\\\\[a]\\p{IsGreek}", b"[\\\\][\\\\]\\p{IsGreek}"]
+    out += escaped_bracket_inputs(cx, rng, names)
     # malformed stream: arbitrary bytes (no NUL), sometimes with the needle spliced in
     for _ in range(cx.n(1500, 30000)):
         s = bytes(rng.randrange(1, 256) for _ in range(rng.randrange(1, 14)))
@@ -523,6 +552,43 @@ def rewrite_inputs(cx, st):
         out.append(s)
     out += [b"a\x00b^", b"\x00"]
     return list(dict.fromkeys(out))
+
+
+# text in front of a block escape that leaves the bracket depth at 0 / that leaves a class open: runs of backslashes in front of
+# brackets, escaped brackets, classes with escaped backslashes and brackets (F190: the depth must be the one of the escape tokens)
+ESC_CLOSED = [b"", b"\\\\", b"\\\\\\\\", b"\\[", b"\\]", b"\\\\\\[", b"\\\\\\]", b"[a]", b"[^b]", b"[\\\\]", b"[\\]]", b"[\\[]", b"[a\\\\]", b"[\\\\a]", b"\\\\[a]",
+              b"\\\\[\\\\]", b"\\\\\\\\[a]", b"\\\\[a\\]]", b"[\\\\\\]]", b"a", b"(", b")", b"|", b"\\^", b"$", b"a*", b"\\\\[^a]+"]
+ESC_OPEN = [b"[", b"[^", b"[a", b"[\\\\", b"[\\]", b"[\\[", b"[a\\\\", b"[\\\\\\\\", b"\\\\[", b"\\\\[^", b"\\\\\\\\[", b"[\\\\\\]", b"[a-c", b"\\\\[\\\\"]
+
+
+def escaped_bracket_pattern(rng, pre_units, names):
+    """prefix (depth 0) + block escapes outside and inside classes opened after escaped backslashes"""
+    out = b"".join(pre_units)
+    for _ in range(rng.randrange(1, 3)):
+        blk = ("\\p{Is%s}" % rng.choice(names)).encode()
+        if rng.random() < 0.5:
+            out += blk + rng.choice([b"", b"", b"+", b"?"])
+        else:
+            out += rng.choice(ESC_OPEN) + blk + rng.choice([b"", b"a", b"\\\\", b"\\]"]) + b"]" + rng.choice([b"", b"", b"*"])
+        out += rng.choice(ESC_CLOSED)
+    return out
+
+
+def escaped_bracket_inputs(cx, rng, names):
+    blocks = ["Greek", "Specials", "BasicLatin"]
+    out = []
+    # exhaustive: every closed prefix (and every pair of the first dozen) x {outside, inside every open text} x three blocks
+    pres = [(a,) for a in ESC_CLOSED] + [(a, b) for a in ESC_CLOSED[1:13] for b in ESC_CLOSED[1:13]]
+    for pre in pres:
+        for n in blocks:
+            blk = ("\\p{Is%s}" % n).encode()
+            out.append(b"".join(pre) + blk)
+            for o in ESC_OPEN:
+                out.append(b"".join(pre) + o + blk + b"]")
+    for _ in range(cx.n(2500, 30000)):
+        k = rng.randrange(0, 4)
+        out.append(escaped_bracket_pattern(rng, [rng.choice(ESC_CLOSED) for _ in range(k)], blocks + [rng.choice(names)]))
+    return out
 
 
 def run_rewrite(cx, st):
@@ -543,8 +609,10 @@ def run_rewrite(cx, st):
     lines = ["%d %s rewrite %s %s" % (i, COMP, cur, hexs(p)) for i, p in enumerate(pats) if get(cur, i)[:2] != ["err", "Crash"]]
     cx.rule("rewrite: every byte string of length <= %d over {\\ [ ] ^ $ a}, all 1- and 2-sequences and random 2..7-sequences of %d pattern pieces "
             "(block escapes incl. prefix-related, unknown and unterminated names, escaped and plain brackets and anchors), every table name "
-            "outside / inside / inside a negated class, nesting depths 0..100, arbitrary non-NUL bytes with spliced pieces; model-predicted crashes "
-            "(F1: table index = bracket depth out of range) are replayed singly" % (cx.n(5, 6), 39))
+            "outside / inside / inside a negated class, nesting depths 0..100, block escapes (Greek, Specials, BasicLatin, random rows) outside and inside "
+            "classes behind every one and every pair of %d bracket-neutral texts with escaped backslashes in front of brackets / escaped brackets / classes "
+            "holding them and behind %d class-opening texts plus random longer combinations, arbitrary non-NUL bytes with spliced pieces; model-predicted crashes "
+            "(F1: table index = bracket depth out of range) are replayed singly" % (cx.n(5, 6), 39, len(ESC_CLOSED), len(ESC_OPEN)))
 
     def kind(line, reply):
         return "xsdre:rewrite:%s" % (reply[0] if reply[0] == "ok" else reply[1])
@@ -658,7 +726,7 @@ def unicode_cases(cx, st):
         a, b = rng.choice(names), rng.choice(names)
         pats.append(rng.choice(["\\p{Is%s}", "[\\p{Is%s}]", "[^\\p{Is%s}]", "\\p{Is%s}*", "\\p{Is%s}\\p{Is" + b + "}", "[\\p{Is%s}\\p{Is" + b + "}]", "(\\p{Is%s})+"]) % a)
     fixed = ["a", "Z", "1", "_", " ", "$", "+", "-", ":", ".", "\u03b1", "\u03a9", "\u1fc6", "\u042f", "\u00e9", "\u00a0", "\u2003", "\u0663", "\u4e2d",
-             "\ufeff", "\ufffd", "\U00010300", "\t", "\n", "\r", "^", "|", "\\", "{", "[", "]", "\u0300", "\u00b7", "\u203f", "\u2160", "\u00b2", "\u20ac",
+             "\ufeff", "\ufffd", "\ufff0", "\U00010300", "\t", "\n", "\r", "^", "|", "\\", "{", "[", "]", "\u0300", "\u00b7", "\u203f", "\u2160", "\u00b2", "\u20ac",
              "\u0085", "\u3000", "\u037e", "\u0370", "\u03ff", "\u0400", "\u007f", "\u0080"]
     cases = []
     for p in pats:
@@ -673,6 +741,37 @@ def unicode_cases(cx, st):
     return cases
 
 
+def escape_block_cases(cx, st):
+    """block escapes behind escaped backslashes / brackets and the two-range block Specials, outside and inside classes (F190, F187),
+    each against ALL strings of length <= 3 over an alphabet that holds the characters the pattern can tell apart"""
+    rng = cx.sub_rng("escblock")
+    names = st.blocks or ["BasicLatin", "Greek", "Specials"]
+    alpha = "\\a\u03b1\ufffd|\ufeff".encode()       # backslash, a, Greek alpha, two characters of Specials, and '|'
+    alpha2 = "\\]a\u03b1\ufff0[".encode()
+    pats = ["\\\\[a]\\p{IsGreek}", "\\\\[a]\\p{IsSpecials}", "[\\\\]\\p{IsGreek}", "[\\\\\\p{IsGreek}]+", "\\\\[a\\p{IsGreek}]", "\\[\\p{IsGreek}\\]", "\\\\\\[\\p{IsGreek}",
+            "\\\\\\\\[a]\\p{IsGreek}", "\\\\[\\\\]\\p{IsGreek}", "\\\\[^a]\\p{IsGreek}?", "(\\\\[a])*\\p{IsGreek}", "[\\]]\\p{IsGreek}", "[\\]\\p{IsGreek}]+", "[a\\\\]*[\\p{IsGreek}a]",
+            "\\\\[a]\\p{IsGreek}\\\\[a]\\p{IsGreek}", "\\\\[a]|\\p{IsGreek}", "\\\\[\\p{IsGreek}\\\\]+", "\\\\[a][\\p{IsGreek}]",
+            "\\p{IsSpecials}", "[\\p{IsSpecials}]", "[^\\p{IsSpecials}]", "[a\\p{IsSpecials}]+", "\\p{IsSpecials}+a", "(\\p{IsSpecials}|a)*", "[\\p{IsGreek}\\p{IsSpecials}]*",
+            "[\\\\\\p{IsSpecials}]*", "\\p{IsSpecials}\\p{IsGreek}", "[\\p{IsSpecials}a]\\p{IsSpecials}?", "\\\\[\\p{IsSpecials}]", "[\\p{IsSpecials}\\p{IsGreek}|]"]
+    seen = set(pats)
+    blocks = ["Greek", "Specials", "Greek", "Specials", "BasicLatin"]
+    for _ in range(cx.n(120, 1500)):
+        k = rng.randrange(0, 3)
+        p = escaped_bracket_pattern(rng, [rng.choice(ESC_CLOSED) for _ in range(k)], blocks + [rng.choice(names)]).decode()
+        p = p.replace("(", "").replace(")", "")      # (unbalanced parentheses only make the pattern invalid)
+        if p not in seen:
+            seen.add(p); pats.append(p)
+    cases = []
+    for k, p in enumerate(pats):
+        cases.append(Case(p, "grid", alpha if k % 3 else alpha2, 3, s3=cx.n(5, 1), s4=(97 if k % 4 == 0 else 0), salt=rng.randrange(0, 97), tag="escblock"))
+        if k < 30:
+            cases.append(Case(p, "grid", alpha2 if k % 3 else alpha, 3, s3=cx.n(5, 1), s4=0, salt=rng.randrange(0, 5), tag="escblock"))
+    cx.rule("escblock: %d hand-written and generated patterns with block escapes (Greek, Specials, BasicLatin, random rows) outside and inside classes "
+            "behind escaped backslashes in front of brackets, escaped brackets and classes holding them, each x ALL %d strings of length <= 3 over "
+            "{\\ a alpha U+FFFD | U+FEFF} or {\\ ] a alpha U+FFF0 [}" % (len(pats), grid_size(6, 3)))
+    return cases
+
+
 # ------------------------------------------------------------------------------------------ other routes / resources
 
 def run_yangre_binary(cx, st):
@@ -683,6 +782,9 @@ def run_yangre_binary(cx, st):
         return
     pairs = [("a*b", "aab"), ("a*b", "aa"), ("[a-c]{2}", "ab"), ("^", "^"), ("a$", "a$"), ("a", "a\n"), ("\\d+", "12"), ("(a|b)+", "abba"), ("(a|b)+", "abc"),
              ("\\p{Lu}", "A"), ("\\p{Lu}", "a"), ("[^a]", "\n"), (".", "\n"), ("", ""), ("a?", "")]
+    if "f1" in st.flags:
+        pairs += [("\\\\[a]\\p{IsGreek}", "\\a\u03b1"), ("\\\\[a]\\p{IsGreek}", "\\a"), ("\\p{IsSpecials}", "\ufffd"), ("\\p{IsSpecials}", "|"),
+                  ("[a\\p{IsSpecials}]+", "a\ufeff\ufff0")]
     lines = ["y%d %s match %s %s 0" % (i, COMP, hexs(p.encode()), hexs(s.encode())) for i, (p, s) in enumerate(pairs)]
     rm = cx.run_model(lines)
     for i, (p, s) in enumerate(pairs):
@@ -770,6 +872,10 @@ def run(cx):
            Case("\\w", "list", strs=[b"$", b"a", b"_"], tag="witness"),
            Case("\\s", "list", strs=["\u00a0".encode(), b" "], tag="witness"),
            Case("\\P{IsGreek}", "list", strs=[b"a", "\u03b1".encode()], tag="witness")]
+    if "f1" in st.flags:
+        wit += [Case("\\\\[a]\\p{IsGreek}", "list", strs=["\\a\u03b1".encode(), b"\\a", "\\a\u03b1]".encode()], tag="witness"),
+                Case("\\p{IsSpecials}", "list", strs=["\ufffd".encode(), "\ufeff".encode(), b"|", b"a"], tag="witness"),
+                Case("[a\\p{IsSpecials}]", "list", strs=["\ufff0".encode(), b"a", b"|"], tag="witness")]
     tot = collections.Counter()
     tot.update(evaluate(cx, st, wit + corpus_cases(cx)))
     mark("witnesses+corpus")
@@ -782,6 +888,8 @@ def run(cx):
     mark("grid")
     tot.update(evaluate(cx, st, unicode_cases(cx, st), inv_every=3))
     mark("unicode")
+    tot.update(evaluate(cx, st, escape_block_cases(cx, st), inv_every=4))
+    mark("escblock")
     run_yangre_binary(cx, st)
     run_xpath_reject_leak(cx, st)
     mark("yangre+leak")
